@@ -419,16 +419,31 @@ fn u8_comparisons() {
     core::mem::forget((a, b));
 }
 
+/// Contract stub of `drop_unreachable` (its contract is checked on the real function by the
+/// u6_drop_unreachable_* harnesses): the object ends Gone, the value is destroyed once (ghost counter),
+/// the implicit weak is released, the allocation is released iff that was the last weak.
+static mut DU_CALLS: usize = 0;
+unsafe fn stub_du_contract<T>(this: &mut Rc<T>) {
+    DU_CALLS += 1;
+    let rcbox = this.ptr.as_ptr();
+    (*rcbox).make_uninit();
+    (*rcbox).dec_weak();
+    if (*rcbox).weak() == 0 {
+        let layout = Layout::for_value_raw(this.ptr.as_ptr());
+        Global.deallocate(this.ptr.cast(), layout);
+    }
+}
+
 // ------------------------------------------------------------- C07 cross-check against the real std::rc
 /// The same straight-line program (with symbolic choices) on cactusref and on std::rc; all observations equal.
 macro_rules! scenario {
     ($name:ident, $rc:ident, $weak:ident) => {
-        fn $name(choice: [bool; 4], v: u8) -> [usize; 12] {
+        fn $name(choice: [bool; 2], v: u8) -> [usize; 12] {
             let mut o = [0usize; 12];
             let a = $rc::new(v);
             let b = if choice[0] { Some($rc::clone(&a)) } else { None };
             let w = $rc::downgrade(&a);
-            let w2 = if choice[1] { Some(w.clone()) } else { None };
+            let w2 = w.clone();
             o[0] = $rc::strong_count(&a);
             o[1] = $rc::weak_count(&a);
             o[2] = w.strong_count();
@@ -437,7 +452,7 @@ macro_rules! scenario {
             o[4] = up.is_some() as usize;
             o[5] = $rc::strong_count(&a);
             drop(up);
-            if choice[2] {
+            if choice[1] {
                 drop(b);
                 drop(a);
             } else {
@@ -449,10 +464,6 @@ macro_rules! scenario {
             o[8] = w.upgrade().is_some() as usize;
             drop(w2);
             o[9] = w.weak_count();
-            if choice[3] {
-                let e: $weak<u8> = $weak::new();
-                o[10] = e.upgrade().is_none() as usize + e.strong_count() + e.weak_count();
-            }
             drop(w);
             o[11] = v as usize;
             o
@@ -467,12 +478,13 @@ scenario!(scenario_std, StdRc, StdWeak);
 scenario!(scenario_cactus, CRc, CWeak);
 
 #[kani::proof]
-#[kani::unwind(6)]
+#[kani::unwind(14)]
 #[kani::stub(crate::drop::drop_unreachable_with_adoptions, stub_dua)]
 #[kani::stub(crate::drop::drop_cycle, stub_dc)]
 #[kani::stub(crate::rc::Rc::orphaned_cycle, stub_oc)]
+#[kani::stub(crate::drop::drop_unreachable, stub_du_contract)]
 fn u8_std_crosscheck() {
-    let choice: [bool; 4] = kani::any();
+    let choice: [bool; 2] = kani::any();
     let v: u8 = kani::any();
     let s = scenario_std(choice, v);
     let c = scenario_cactus(choice, v);
@@ -482,6 +494,7 @@ fn u8_std_crosscheck() {
         i += 1;
     }
     kani::assert(unsafe { GROUP_CALLS } == 0, "U8.std_crosscheck.no_group_teardown_without_adoptions");
+    kani::assert(unsafe { DU_CALLS } == 1, "U8.std_crosscheck.value_destroyed_exactly_once_like_std");
 }
 
 /// C12: try_unwrap on an object that has adopted a peer must not leave the peer naming the given-up allocation
